@@ -358,7 +358,7 @@ func (h *harness) checkScenario(sc *scenario) {
 		if strings.Contains(obs.stderr, "[WARN] stderr:\n") {
 			shown++
 		}
-		if strings.Contains(obs.stderr, "[WARN] c11plugin stderr:\n") {
+		if p.Script.Stderr != "" && strings.Contains(obs.stderr, "[WARN] c11plugin stderr:\n"+p.Script.Stderr) {
 			shown++
 		}
 		op := fmt.Sprintf("exe %s %s %s %s %s %d %d", cl.run, vl.B(cl.decoded), cl.err, vl.B(cl.feedOK), vl.B(cl.stderr), cl.nwarn, cl.ncontent)
@@ -383,6 +383,21 @@ func (h *harness) checkScenario(sc *scenario) {
 				}
 				if i < len(obs.records) && pidAlive(obs.records[i].Pid) {
 					fail("plugin still running after the time limit", "process killed", obs.records[i].Pid)
+				}
+			}
+		} else if laterFault(sc, i) {
+			// the whole run fails later: nothing is persisted, what was fed cannot be observed; the
+			// warnings of this plugin must still have been shown
+			want := cl.nwarn
+			if cl.stderr {
+				want++
+			}
+			if shown != want {
+				fail("plugin warnings not all shown", want, fmt.Sprintf("%d; stderr: %s", shown, tail(obs.stderr, 400)))
+			}
+			for n := range exp {
+				if _, err := os.Stat(filepath.Join(obs.outDir, n)); err == nil {
+					fail("a later plugin failed but a file was written", "no output", n)
 				}
 			}
 		} else {
@@ -452,6 +467,16 @@ func (h *harness) checkScenario(sc *scenario) {
 		}
 	}
 	h.out.Stats["process:plugin-executions"] += len(obs.records)
+}
+
+// laterFault: some plugin after i faults (then thriftgo fails as a whole and persists nothing).
+func laterFault(sc *scenario, i int) bool {
+	for j := i + 1; j < len(sc.Plugins); j++ {
+		if classify(&sc.Plugins[j].Script, sc.LimitMs).fault() {
+			return true
+		}
+	}
+	return false
 }
 
 func describe(c pClass) string {
@@ -610,7 +635,9 @@ func (h *harness) randomScenario(i int) *scenario {
 			for j := range raw {
 				raw[j] = byte(r.Intn(256))
 			}
-			raw[0] &= 0x7f // negative TTypes have their own catalogue scenario (stable key)
+			for j := range raw {
+				raw[j] &= 0x7f // negative TTypes (bytes >= 0x80) have their own catalogue scenario (stable key)
+			}
 			sc = pScript{Mode: "raw", Raw: base64.StdEncoding.EncodeToString(raw)}
 		case 3:
 			sc = pScript{Error: sp(r.Pick([]string{"e", "multi\nline error", "ü"})), Warnings: []string{"C11W-" + id + "-w"}}
@@ -622,7 +649,7 @@ func (h *harness) randomScenario(i int) *scenario {
 				sc.Warnings = append(sc.Warnings, fmt.Sprintf("C11W-%s-%d", id, j))
 			}
 			if r.Chance(25) {
-				sc.Stderr = "stderr text\n"
+				sc.Stderr = "stderr text of " + id + "\n"
 			}
 		}
 		var opts [][2]string
